@@ -9,8 +9,20 @@ TECHNIQUE = ("Coq proof that a function-by-function model of sm4_gcm.go equals a
              "inc32, GCTR, J0, GCM-AE/AD, t = 128) for every key, IV length, additional data and plaintext, for an abstract block cipher; model "
              "tied to /repo by differential runs of the extracted model; /repo additionally checked against crypto/cipher's GCM over sm4.NewCipher "
              "(what the TLS suites use) and an independent python GCM")
-LEVEL_TEXT = "see Props/C12.v"
-LEVEL_NOTE = "see Props/C12.v"
+LEVEL_TEXT = ("Theorems in Coq (Props/C12.v) over a model of addition, Rightshift, findYi, multiplication, GHASH (calculm_v block walk), GetY0, "
+              "incr/addYone, MSB, GetH, GCMEncrypt, GCMDecrypt, Sm4GCM: the byte-array multiplication is Algorithm 1 of SP 800-38D (with "
+              "commutativity of the field multiplication proved by additivity + a complete 128x128 basis sweep); GHASH is the standard's over "
+              "A||0||C||0||[len A]_64||[len C]_64 with bit lengths; J0 for 96-bit and all other IV lengths; the counter is inc32 (low 32 bits, "
+              "wrap); the loops are GCTR; Sm4GCM/GCMEncrypt return GCM-AE's (C,T) and Sm4GCM/GCMDecrypt return GCTR(C) and GCM-AD's recomputed tag "
+              "for every 16-byte key, IV of any length, A and P; decrypt(encrypt) returns P and the same tag; the returned tag is "
+              "E(K,J0) xor GHASH_H(A,C) and two tags under one key/IV agree iff the GHASH values agree. The model is run (extracted, block "
+              "cipher = SM4Spec) against /repo and /repo against crypto/cipher's GCM over sm4.NewCipher (the TLS suites' computation).")
+LEVEL_NOTE = ("Trusted: Coq kernel incl. vm_compute, extraction (ExtrOcamlBasic only), the hand-written model of sm4_gcm.go's control flow (tied "
+              "by the differential run), the transcription of SP 800-38D in GCMSpec.v (validated by RFC 8998 A.1 and tied to crypto/cipher by the "
+              "driver's oracle). The block cipher is abstract (16-byte outputs); C05 supplies SM4. The helpers do not compare tags themselves: "
+              "what is proved is what the returned tag is; that a modified (IV,A,C) changes GHASH except when Delta.H^k = 0 is the standard "
+              "algebraic argument and is exercised by every single-bit flip in the run, not proved. Caller memory (IV/A/P with spare capacity) "
+              "is checked by canaries in the run only.")
 TRUSTED_BASE = [
     "specification coq/SM4/GCMSpec.v transcribed by hand from NIST SP 800-38D; validated by RFC 8998 A.1 (SM4-GCM) as an Example",
     "model coq/SM4/GCMModel.v written by hand from sm4/sm4_gcm.go; tied by the correspondence run of this check",
@@ -18,8 +30,18 @@ TRUSTED_BASE = [
     "extraction: ExtrOcamlBasic only; OCaml 4.13.1 + dune; runner ocaml/sm4gcm/main.ml and ocaml/conv.ml.tmpl",
     "Go driver harness/cmd/c12 (canaries, crypto/cipher GCM oracle, construction of counter-wrapping IVs); python GCM in checks/c12.py",
 ]
-ASSUMPTIONS = []
-RULE = ""
+ASSUMPTIONS = [
+    "keys of 16 bytes (other lengths: Sm4GCM errs, proved; GCMEncrypt/GCMDecrypt/GetH panic, modelled); byte strings are lists of N < 256",
+    "`X := make(...)` plus copy into window i is modelled by the list of windows; Go int is wide enough for all lengths (64 bit)",
+    "the theorem about tag inequality is the equivalence with GHASH inequality; no irreducibility / collision-probability claim is made",
+]
+RULE = ("seeded generator (VERIF_SEED): RFC 8998 A.1; IV lengths 1..64 (random / all-ff / half-ff) x 2 (thorough 12) messages; |A|,|P| in 0..80 at IV "
+        "lengths 12, 1, 16, 17 - thorough: the full 81x81 grid, quick: all block-border pairs (0,1,15 mod 16) plus a sample; 16-byte IVs constructed "
+        "(GF(2^128) inversion in the driver) so that J0 ends in fffffffc..ffffffff and the 32-bit counter wraps inside the message; messages up to "
+        "4 KiB (thorough 64 KiB); IV, A, P (and C for decryption) placed in front of 0..40 canary bytes in their backing arrays; key lengths "
+        "0..32; every single-bit change of IV, A, C and T for 3 (thorough 12) messages plus truncation/extension and a key bit: the recomputed "
+        "tag must differ from T. Every case is encrypted and decrypted, through Sm4GCM and through GCMEncrypt/GCMDecrypt. Non-trivial: all; "
+        "distinct = distinct case text")
 
 _spec = importlib.util.spec_from_file_location("checks._c05_sm4", os.path.join(os.path.dirname(os.path.abspath(__file__)), "c05.py"))
 _c05 = importlib.util.module_from_spec(_spec)
